@@ -60,6 +60,7 @@ def check_tangent(case, ctx):
     prescribed = bool(case.get('pdC') and case.get('uTM')) or bool(case.get('thetaTdeg')) or bool(case.get('betadeg'))
     if case.get('betadeg'):
         ctx.label('load-asymmetry:tLA=%s' % ('0' if not case.get('tLAdeg') else 'non-zero'))
+    ctx.label('excluded:' + ','.join(map(str, exc)))
     ctx.label('inc=1' if inc == 1. else 'inc<1', 'prescribed-displacement' if prescribed else 'no-prescribed-displacement')
     c_before = c.copy()
     with package(name + '.fint'):
@@ -188,6 +189,12 @@ def _strategy(draw, tier='quick'):
     hh = case['h'] if 'iso_' in case['model'] else case['plyt'] * len(case['stack'])
     case['uTM'] = round(draw(gen.fl(-1., 1.)), 3) * hh if case['pdC'] else 0.
     case['thetaTdeg'] = draw(st.sampled_from([0., 0., 0.01, -0.03]))
+    # torque under force control (pdT=False) instead of a prescribed end rotation: together with pdC the prescribed amplitudes are
+    # then numbers 0 and 2 of the vector - not a leading contiguous block
+    case['pdT'] = draw(st.sampled_from([True, True, False]))
+    if not case['pdT']:
+        case['thetaTdeg'] = 0.
+        case['T'] = round(draw(gen.fl(-50., 50.)), 1)
     # load asymmetry: tilt betadeg of the loaded edge about an axis at circumferential position tLAdeg
     if draw(st.integers(0, 2)) == 0:
         case['betadeg'] = draw(st.sampled_from([0.002, -0.005, 0.01]))
